@@ -140,6 +140,13 @@ def run(ctx):
                 if kw:
                     name = rng.choice(sorted(kw))
                     checked('__replace__', i, ty, x.__replace__, (), {name: kw[name]}, watch=[x, kw[name]])
+                # the public unchecked constructors: the dict handed in (possibly omitting defaulted fields) stays as it was
+                fields = [f for f in type(x).__pane_info__.fields if f.init]
+                partial = {f.name: getattr(x, f.name) for f in fields if not (f.has_default() and rng.random() < 0.5)}
+                checked('from_dict_unchecked', i, ty, T.from_dict_unchecked, (partial,))
+                sf = set(partial)
+                checked('from_dict_unchecked(set_fields)', i, ty, T.from_dict_unchecked, (dict(partial),), {'set_fields': sf}, watch=[sf])
+                checked('make_unchecked', i, ty, T.make_unchecked, (), dict(partial), watch=list(partial.values()))
 
     drive.for_each_case(ctx, 'main', ctx.budget, body)
 
